@@ -4,6 +4,8 @@ Every source line k is the probe `struct L<k> {}`, so the set of lines that reac
 off CompilationState.files[i].contents (no hook). Oracle: vlib/preproc.py.
 """
 import itertools
+import random
+import json
 import re
 
 from .. import build, core, preproc
@@ -46,6 +48,9 @@ def plan(tier, seed):
     for i in range(8):
         specs.append(("chains", i, 8))
     specs.append(("tails",))
+    n = 6000 if tier == "quick" else 80000
+    for i in range(16):
+        specs.append(("metamorphic", n // 16, i))
     return specs
 
 
@@ -139,6 +144,118 @@ def judge(ctx, lines_per_file, defines, resp, family, eol="\n", extra_ok_codes=(
                                 replay)
             elif hits:
                 ctx.violate("diagnostic-from-removed-line:" + family, "diagnostic from removed line %d" % row, replay)
+
+
+# ---------------------------------------------------------------------------------------------------------------
+# metamorphic families: the same file with its directives and unselected lines blanked by hand; and its ASCII twin
+
+GARBAGE = ['$$$ "unterminated', "struct {{{{", "\\ 99 ::", "]] ) stream", "/// {@link", "module Other"]
+
+
+def blanking_case(rng):
+    """A generated valid program, one token per line or plainly laid out, with directive lines inserted at arbitrary line
+    boundaries - inside definitions, attribute lists, parameter lists, doc comments - and its twin in which every directive
+    line and every unselected line has been replaced by an empty line. Returns (lines, twin, defines)."""
+    from ..slicegen import gen, printer
+    prog = gen.valid_program(random.Random(rng.random()), max_files=1, max_defs=4, type_depth=2)
+    gen.add_comments(prog, random.Random(rng.random()), density=0.3)
+    style = rng.choice(["lines", "lines", "plain"])
+    text = printer.print_program(prog, [printer.Layout(random.Random(rng.random()), style)])[0]
+    src = text.split("\n")
+    if src and src[-1] == "":
+        src.pop()
+    lines, twin = [], []
+    i = 0
+    n_ins = rng.randint(1, 6)
+    points = sorted(rng.sample(range(1, len(src) + 1), min(n_ins, len(src)))) if src else []
+    ind = lambda: rng.choice(["", "", "  ", "\t"])
+    for k, line in enumerate(src):
+        while points and points[0] == k:
+            points.pop(0)
+            kind = rng.random()
+            if kind < 0.25:
+                d = ind() + "#" + rng.choice(["define X", "undef T2", "define Y  // c", " define Z"])
+                lines.append(d); twin.append("")
+            elif kind < 0.5:
+                # a selected region around nothing / around the next lines is transparent
+                lines.append(ind() + "#if T"); twin.append("")
+                lines.append(ind() + "#endif"); twin.append("")
+            elif kind < 0.8:
+                lines.append(ind() + "#if " + rng.choice(["F", "!T", "F && T", "(F)"])); twin.append("")
+                for _ in range(rng.randint(1, 2)):
+                    lines.append(rng.choice(GARBAGE)); twin.append("")
+                lines.append(ind() + "#endif"); twin.append("")
+            else:
+                lines.append(ind() + "#if F"); twin.append("")
+                lines.append(rng.choice(GARBAGE)); twin.append("")
+                lines.append(ind() + "#elif T"); twin.append("")
+                lines.append(ind() + "#else"); twin.append("")
+                lines.append(rng.choice(GARBAGE)); twin.append("")
+                lines.append(ind() + "#endif"); twin.append("")
+        lines.append(line); twin.append(line)
+    return lines, twin, ("T",)
+
+
+def ascii_twin(text):
+    return "".join(ch if ord(ch) < 128 else "x" for ch in text)
+
+
+def _strip_text(x):
+    """Keeps structure and every location of a dump, drops text that an ASCII twin legitimately changes."""
+    if isinstance(x, dict):
+        return {k: _strip_text(v) for k, v in x.items() if k not in ("args", "message", "text", "overview", "value_text")}
+    if isinstance(x, list):
+        return [_strip_text(v) for v in x]
+    return x
+
+
+def run_metamorphic(ctx, spec):
+    _, count, idx = spec
+    rng = ctx.rng("meta/%d" % idx)
+    items, reqs = [], []
+    for n in range(count):
+        if n % 3 != 2:
+            lines, twin, defines = blanking_case(rng)
+            a, b = "\n".join(lines) + "\n", "\n".join(twin) + "\n"
+            what = "blanking"
+        else:
+            c = random_file_case(rng)
+            eol = c.get("eol", "\n")
+            a = eol.join(c["files"][0]) + (eol if c.get("final_eol", True) else "")
+            # non-ASCII text also after directives and at line ends, where positions of later diagnostics depend on it
+            a = a.replace("// c", "// \u00e9\u4e2d\U0001F600").replace("#if A &", "#if A &  // \u20ac\u20ac")
+            b = ascii_twin(a)
+            defines = tuple(c["defines"])
+            what = "ascii-twin"
+            if a == b:
+                continue
+        items.append((what, a, b, defines))
+        reqs.append({"op": "compile", "files": [a], "defines": list(defines), "want": ["ast", "codes"]})
+        reqs.append({"op": "compile", "files": [b], "defines": list(defines), "want": ["ast", "codes"]})
+    resps = ctx.worker.batch(reqs)
+    for i, (what, a, b, defines) in enumerate(items):
+        ra, rb = resps[2 * i], resps[2 * i + 1]
+        ctx.note_case(("meta", what, a))
+        ctx.stats["metamorphic_%s_pairs" % what.replace("-", "_")] += 1
+        replay = {"kind": "library", "call": "compile_from_strings", "files": [a], "twin": [b], "defines": list(defines), "relation": what}
+        if any("died" in r or r.get("panic") for r in (ra, rb)):
+            p = ra.get("panic") or rb.get("panic") or {"message": "worker died", "location": "?"}
+            ctx.violate(core.panic_signature(p), "preprocessing crashed: %s" % p, replay)
+            continue
+        ca = [(x[0], x[1], x[2]) for x in ra["codes"]]
+        cb = [(x[0], x[1], x[2]) for x in rb["codes"]]
+        if ca != cb:
+            replay["diagnostics"] = ca[:6]
+            replay["diagnostics_twin"] = cb[:6]
+            ctx.violate("twin-diagnostics-differ:" + what, "diagnostics (code, level, location) differ between the file and its %s twin: %r vs %r"
+                        % (what, ca[:3], cb[:3]), replay)
+            continue
+        fa, fb = ra.get("files"), rb.get("files")
+        if what == "ascii-twin":
+            fa, fb = _strip_text(fa), _strip_text(fb)
+        if json.dumps(fa, sort_keys=True) != json.dumps(fb, sort_keys=True):
+            ctx.violate("twin-ast-differs:" + what, "the AST (with every location) differs between the file and its %s twin" % what, replay)
+    ctx.sample({"family": "metamorphic twins", "file": items[0][1][:600], "twin": items[0][2][:600]} if items else {"family": "metamorphic twins"}, limit=1)
 
 
 def run_cases(ctx, cases, family):
@@ -322,6 +439,8 @@ def run_shard(ctx, spec):
                     ctx.note_case(("tail", li, tail, defs))
                     ctx.stats["tail_cases"] += 1
         run_cases(ctx, batch, "tails")
+    elif kind == "metamorphic":
+        run_metamorphic(ctx, spec)
     elif kind == "multifile":
         _, count, idx = spec
         rng = ctx.rng("multi/%d" % idx)
@@ -459,10 +578,14 @@ def main(tier, seed):
               "of depth <= %d with malformed neighbours x 8 valuations; random files (nesting <= 5, indentation, trailing comments, "
               "CRLF, garbage in removed regions, planted lints); multi-file leak tests; all #if/#elif chains of 2-3 sections (sampled: 4, "
               "thorough 5) over 7 conditions with and without #else, each section with its own #define probed afterwards, x 8 "
-              "valuations; every directive of a well-formed skeleton x 31 line tails. distinct_nontrivial = distinct (file text, "
+              "valuations; every directive of a well-formed skeleton x 31 line tails; metamorphic twins: generated programs with "
+              "directive lines inserted at arbitrary line boundaries (inside definitions, attribute and parameter lists, doc comments) "
+              "vs the same text with directives and unselected lines blanked by hand (AST with every location and all diagnostics "
+              "identical), and files vs their ASCII twins (every non-ASCII character replaced 1:1; all locations identical). "
+              "distinct_nontrivial = distinct (file text, "
               "-D set) pairs containing at least one directive" % (maxlen, 2 if tier == "quick" else 3)),
         required={"wellformed_cases": 1000, "malformed_cases": 500, "probes_expected": 1000, "probes_removed": 1000,
-                  "expression_cases": 500, "multifile_cases": 50, "diagnostic_positions_checked": 50, "chain_cases": 5000, "tail_cases": 1000},
+                  "expression_cases": 500, "multifile_cases": 50, "diagnostic_positions_checked": 50, "chain_cases": 5000, "tail_cases": 1000, "metamorphic_blanking_pairs": 2000, "metamorphic_ascii_twin_pairs": 500},
         assumptions=["expression semantics: '&&' and '||' equal precedence, left-associative, '!' only leading an (sub)expression "
                      "(named as deliberate in the property's why_tests_cant)",
                      "a '#'-first line inside a block comment is not generated (the rule is purely line based)"],
